@@ -330,8 +330,12 @@ class StmtMixin:
         is_for = seq is not None
         tag = f"L{ordn}"
 
+        outer_ks = list(getattr(self, "loop_ks", []))
+
         def ctx_of(p, k):
-            return Ctx(self, p, self.cur_args, None, p.env, k)
+            c = Ctx(self, p, self.cur_args, None, p.env, k)
+            c.ks = outer_ks + [k]  # counters of the enclosing loops (outermost first), then this loop's
+            return c
 
         # 1. invariant on entry (k = 0)
         k0 = z3.IntVal(0)
@@ -368,7 +372,12 @@ class StmtMixin:
                     self.oblige(pb, f"variant-bounded:{tag}", v0 >= 0, s)
                 if is_for:
                     self.assign(s.target, seq.at(k), pb)
-                for kind, p2, val in self.exec_block(s.body, pb):
+                self.loop_ks = outer_ks + [k]
+                try:
+                    body_outs = self.exec_block(s.body, pb)
+                finally:
+                    self.loop_ks = outer_ks
+                for kind, p2, val in body_outs:
                     if kind in (NEXT, CONT):
                         if inv is not None:
                             self.oblige(p2, f"inv-preserved:{tag}", inv(ctx_of(p2, k + 1)), s)
